@@ -27,6 +27,7 @@ func genFacts(repo, outdir string) {
 	type site struct{ pkg, fn, expr string }
 	var sites []site
 	var genCalls = map[string][]string{}
+	builderFuncs := map[string][]*ast.FuncDecl{} // functions and methods of package builder, by name
 	for _, p := range pkgs {
 		if len(p.Errors) > 0 {
 			panic(fmt.Sprint("package errors: ", p.Errors))
@@ -49,12 +50,20 @@ func genFacts(repo, outdir string) {
 					if rs, ok := n.(*ast.RangeStmt); ok {
 						if t := p.TypesInfo.TypeOf(rs.X); t != nil {
 							if _, isMap := t.Underlying().(*types.Map); isMap {
-								sites = append(sites, site{p.Name, name, types.ExprString(rs.X)})
+								// a field is named by the field (stable); a local by its map type (renaming a local is harmless)
+								desc := types.TypeString(t, func(q *types.Package) string { return q.Name() })
+								if se, ok := rs.X.(*ast.SelectorExpr); ok {
+									desc = "field " + se.Sel.Name
+								}
+								sites = append(sites, site{p.Name, name, desc})
 							}
 						}
 					}
 					return true
 				})
+				if p.Name == "builder" {
+					builderFuncs[fd.Name.Name] = append(builderFuncs[fd.Name.Name], fd)
+				}
 				if fd.Name.Name == "TemplateGenFromString" || fd.Name.Name == "TsGenFromString" || name == "*TemplateBuilder.WriteFile" {
 					var calls []string
 					ast.Inspect(fd.Body, func(n ast.Node) bool {
@@ -80,7 +89,7 @@ func genFacts(repo, outdir string) {
 	})
 	var sb strings.Builder
 	sb.WriteString("-- GENERATED from /repo by the translator (go/packages); do not edit\nimport Yv.Spec.GenOps\nnamespace Gen\nopen GenOps\n\n")
-	sb.WriteString("/-- every `range` over a map in non-test code: (package, function, ranged expression) -/\n")
+	sb.WriteString("/-- every `range` over a map in non-test code: (package, function, ranged field or, for a local, its map type) -/\n")
 	sb.WriteString("def mapRangeSites : List (String × String × String) := [\n")
 	for i, s := range sites {
 		sep := ","
@@ -102,43 +111,15 @@ func genFacts(repo, outdir string) {
 		if fn == "WriteFile" {
 			continue
 		}
-		// the same sequence classified in the vocabulary of Yv/Spec/GenOps.lean (unknown calls are fallible: fail closed)
-		fmt.Fprintf(&sb, "def ops_%s : List Op := [", fn)
-		// `b.WriteFile(f)` is not opaque: its own calls are spliced in at the call site
-		var seq []string
-		for _, c := range genCalls[fn] {
-			if strings.HasPrefix(c, "b.WriteFile(") {
-				if len(genCalls["WriteFile"]) == 0 {
-					panic("(*TemplateBuilder).WriteFile not found")
-				}
-				for _, w := range genCalls["WriteFile"] {
-					seq = append(seq, "WriteFile:"+w)
-				}
-			} else {
-				seq = append(seq, c)
-			}
+		// the same sequence classified in the vocabulary of Yv/Spec/GenOps.lean (unknown calls are fallible: fail closed).
+		// Calls to functions and methods of package builder itself are not opaque: their own calls are spliced in at the
+		// call site (recursively), so extracting or inlining a helper does not change the sequence of effects.
+		fds := builderFuncs[fn]
+		if len(fds) != 1 {
+			panic("generator entry point not found exactly once: " + fn)
 		}
-		for i, c := range seq {
-			if i > 0 {
-				sb.WriteString(", ")
-			}
-			switch {
-			case strings.HasPrefix(c, "os.Create("):
-				sb.WriteString(".create")
-			case strings.HasPrefix(c, "f.WriteString("):
-				fmt.Fprintf(&sb, ".write %v", c == "f.WriteString(b.CodeLast)")
-			case c == "WriteFile:templ.Execute(f, b)":
-				sb.WriteString(".write true") // the template; that it ends with the epilogue slot is a separate fact below
-			case c == "WriteFile:template.New(\"gotemplate\").Parse(chooseTemplate)", c == "WriteFile:template.New(\"gotemplate\")",
-				c == "WriteFile:panic(err)", c == "WriteFile:f.Close()":
-				sb.WriteString(".other") // parsing a compiled-in template does not depend on the input
-			case strings.HasPrefix(c, "fmt.Errorf("), strings.HasPrefix(c, "f.Close("):
-				sb.WriteString(".other")
-			default:
-				sb.WriteString(".fallible")
-			}
-		}
-		sb.WriteString("]\n\n")
+		ops := opsOf(fds[0], builderFuncs, nil)
+		fmt.Fprintf(&sb, "def ops_%s : List Op := [%s]\n\n", fn, strings.Join(ops, ", "))
 	}
 	// template facts: the compiled-in Go strings equal the .templ files, and both end with the epilogue slot
 	for _, t := range [][3]string{{"goCode", "Builder/goCode.templ", "Builder/GoCodeTemplate.go"}, {"goObject", "Builder/goObject.templ", "Builder/GoObjectTemplate.go"}} {
@@ -162,4 +143,143 @@ func genFacts(repo, outdir string) {
 	writeIfChanged(outdir+"/Facts.lean", sb.String())
 	_ = token.NoPos
 	_ = os.Stdout
+}
+
+// calleeName: the function or method name of a call when it may be one of package builder's own (`f(…)`, `x.f(…)`)
+func calleeName(ce *ast.CallExpr) string {
+	switch f := ce.Fun.(type) {
+	case *ast.Ident:
+		return f.Name
+	case *ast.SelectorExpr:
+		if id, ok := f.X.(*ast.Ident); ok && id.Name != "b" {
+			return "" // a call into another package or on another object (os.Create, f.WriteString, fmt.Errorf …)
+		}
+		return f.Sel.Name
+	}
+	return ""
+}
+
+// sliceOf: the elements of `return []string{e1, …, en}` if that is the whole body of fd
+func sliceOf(fd *ast.FuncDecl) []ast.Expr {
+	if fd.Body == nil || len(fd.Body.List) != 1 {
+		return nil
+	}
+	rs, ok := fd.Body.List[0].(*ast.ReturnStmt)
+	if !ok || len(rs.Results) != 1 {
+		return nil
+	}
+	cl, ok := rs.Results[0].(*ast.CompositeLit)
+	if !ok {
+		return nil
+	}
+	if _, ok := cl.Type.(*ast.ArrayType); !ok {
+		return nil
+	}
+	return cl.Elts
+}
+
+// opsOf: the effects of fd's body in source order, in the GenOps vocabulary
+func opsOf(fd *ast.FuncDecl, funcs map[string][]*ast.FuncDecl, stack []string) []string {
+	if len(stack) > 6 {
+		panic("call chain too deep")
+	}
+	for _, s := range stack {
+		if s == fd.Name.Name {
+			panic("recursive helper: " + s)
+		}
+	}
+	stack = append(stack, fd.Name.Name)
+	inWriteFile := fd.Name.Name == "WriteFile"
+	var ops []string
+	var visit func(n ast.Node) bool
+	visit = func(n ast.Node) bool {
+		// `for _, s := range b.sections() { f.WriteString(s) }` with `sections` returning a slice literal: one write per element
+		if rs, ok := n.(*ast.RangeStmt); ok {
+			if ce, ok := rs.X.(*ast.CallExpr); ok && len(ce.Args) == 0 {
+				if cands := funcs[calleeName(ce)]; len(cands) == 1 {
+					if elts := sliceOf(cands[0]); elts != nil && len(rs.Body.List) == 1 {
+						if es, ok := rs.Body.List[0].(*ast.ExprStmt); ok {
+							if wc, ok := es.X.(*ast.CallExpr); ok && strings.HasPrefix(types.ExprString(wc), "f.WriteString(") && len(wc.Args) == 1 {
+								if v, ok := rs.Value.(*ast.Ident); ok && types.ExprString(wc.Args[0]) == v.Name {
+									for _, e := range elts {
+										ops = append(ops, fmt.Sprintf(".write %v", types.ExprString(e) == "b.CodeLast"))
+									}
+									return false
+								}
+							}
+						}
+					}
+				}
+			}
+			return true
+		}
+		ce, ok := n.(*ast.CallExpr)
+		if !ok {
+			return true
+		}
+		c := types.ExprString(ce)
+		if nm := calleeName(ce); nm != "" {
+			if cands := funcs[nm]; len(cands) == 1 && cands[0].Body != nil {
+				for _, a := range ce.Args {
+					ast.Inspect(a, visit)
+				}
+				ops = append(ops, opsOf(cands[0], funcs, stack)...)
+				return false
+			} else if len(cands) > 1 {
+				// the same method name on both builders: pick the one whose receiver matches the entry point's builder
+				for _, cand := range cands {
+					if cand.Recv != nil && len(cand.Recv.List) > 0 && strings.Contains(types.ExprString(cand.Recv.List[0].Type), builderOf(stack[0])) {
+						for _, a := range ce.Args {
+							ast.Inspect(a, visit)
+						}
+						ops = append(ops, opsOf(cand, funcs, stack)...)
+						return false
+					}
+				}
+			}
+		}
+		switch {
+		case strings.HasPrefix(c, "os.Create("):
+			ops = append(ops, ".create")
+		case strings.HasPrefix(c, "f.WriteString("):
+			ops = append(ops, fmt.Sprintf(".write %v", c == "f.WriteString(b.CodeLast)"))
+		case inWriteFile && c == "templ.Execute(f, b)":
+			ops = append(ops, ".write true") // the template; that it ends with the epilogue slot is a separate fact below
+		case inWriteFile && (strings.HasPrefix(c, "template.New(\"gotemplate\")") && compiledInTemplateArg(ce, funcs)), inWriteFile && c == "panic(err)":
+			ops = append(ops, ".other") // parsing a compiled-in template does not depend on the input
+		case strings.HasPrefix(c, "fmt.Errorf("), strings.HasPrefix(c, "f.Close("):
+			ops = append(ops, ".other")
+		default:
+			ops = append(ops, ".fallible")
+		}
+		return true
+	}
+	ast.Inspect(fd.Body, visit)
+	return ops
+}
+
+func builderOf(entry string) string {
+	if entry == "TsGenFromString" {
+		return "TsBuilder"
+	}
+	return "TemplateBuilder"
+}
+
+// compiledInTemplateArg: `template.New("gotemplate")` itself, or `.Parse(x)` with x a plain identifier or a call of a
+// parameterless helper of package builder (the compiled-in template text; never something read from the input)
+func compiledInTemplateArg(ce *ast.CallExpr, funcs map[string][]*ast.FuncDecl) bool {
+	sel, ok := ce.Fun.(*ast.SelectorExpr)
+	if !ok || sel.Sel.Name != "Parse" {
+		return true
+	}
+	if len(ce.Args) != 1 {
+		return false
+	}
+	switch a := ce.Args[0].(type) {
+	case *ast.Ident:
+		return true
+	case *ast.CallExpr:
+		return len(a.Args) == 0 && len(funcs[calleeName(a)]) >= 1
+	}
+	return false
 }
